@@ -9,7 +9,9 @@ import (
 	"bytes"
 	"context"
 	"crypto/sha256"
+	"encoding/json"
 	"fmt"
+	"strings"
 
 	"github.com/celestiaorg/celestia-app/v9/pkg/appconsts"
 	appproof "github.com/celestiaorg/celestia-app/v9/pkg/proof"
@@ -263,6 +265,110 @@ func vCPCases(h *blob.CommitmentProof, root, commitment []byte, donor *blob.Comm
 	meta("label.namespace-id-nil", func(p *blob.CommitmentProof) { p.NamespaceID = nil })
 	meta("label.namespace-version", func(p *blob.CommitmentProof) { p.NamespaceVersion++ })
 	meta("label.row-proof-root", func(p *blob.CommitmentProof) { p.RowProof.Root = []byte{1, 2, 3} })
+	return append(out, vCPDegenerate(h, root, commitment, otherRoot)...)
+}
+
+// vCPDegenerate: proofs whose length and range fields are chosen so that every loop of a verifier
+// runs zero times (all components emptied, row span wrapping in uint32 arithmetic, commitment
+// recomputed over the emptied subtree-root list), and wrapped spans with the components trimmed
+// to the matching length; each against the real root, another block's root and two unrelated roots.
+func vCPDegenerate(h *blob.CommitmentProof, root, commitment, otherRoot []byte) []vCPCase {
+	var out []vCPCase
+	roots := append([][]byte{root, otherRoot}, vUnrelatedRoots...)
+	emit := func(op, detail string, p *blob.CommitmentProof, cm []byte) {
+		for ri, r := range roots {
+			out = append(out, vCPCase{op, fmt.Sprintf("%s root#%d", detail, ri), vCloneCP(p), r, cm})
+		}
+	}
+	// (1) everything emptied
+	for _, sr := range []struct {
+		name string
+		v    [][]byte
+	}{{"nil", nil}, {"empty", [][]byte{}}} {
+		for _, sp := range vWrapSpans(0) {
+			p := &blob.CommitmentProof{SubtreeRoots: sr.v, NamespaceID: vCloneB(h.NamespaceID), NamespaceVersion: h.NamespaceVersion}
+			p.RowProof.StartRow, p.RowProof.EndRow = sp[0], sp[1]
+			d := fmt.Sprintf("roots=%s span=%d..%d", sr.name, sp[0], sp[1])
+			emit("degenerate.all-emptied+recommit", d, p, coremerkle.HashFromByteSlices(sr.v))
+			emit("degenerate.all-emptied", d, p, commitment)
+			q := vCloneCP(p)
+			q.RowProof.RowRoots, q.RowProof.Proofs, q.SubtreeRootProofs = [][]byte{}, []*appproof.Proof{}, []*nmt.Proof{}
+			emit("degenerate.all-emptied-non-nil+recommit", d, q, coremerkle.HashFromByteSlices(sr.v))
+		}
+		// a plain zero span: one row claimed, none supplied
+		p := &blob.CommitmentProof{SubtreeRoots: sr.v}
+		emit("degenerate.all-emptied-span-0..0+recommit", "roots="+sr.name, p, coremerkle.HashFromByteSlices(sr.v))
+	}
+	// (1b) only one side emptied
+	{
+		p := vCloneCP(h)
+		p.RowProof.RowRoots, p.RowProof.Proofs = nil, nil
+		p.RowProof.StartRow, p.RowProof.EndRow = 1, 0
+		emit("degenerate.row-proof-emptied", "", p, commitment)
+		p = vCloneCP(h)
+		p.SubtreeRoots, p.SubtreeRootProofs = nil, nil
+		emit("degenerate.subtree-side-emptied+recommit", "", p, coremerkle.HashFromByteSlices(nil))
+		p = vCloneCP(h)
+		p.SubtreeRoots, p.SubtreeRootProofs = nil, nil
+		p.RowProof.RowRoots, p.RowProof.Proofs = nil, nil
+		emit("degenerate.all-emptied-honest-span+recommit", "", p, coremerkle.HashFromByteSlices(nil))
+		// subtree proofs present but with ranges that cancel out / are empty, roots emptied
+		p = vCloneCP(h)
+		p.SubtreeRoots = nil
+		for i, q := range p.SubtreeRootProofs {
+			p.SubtreeRootProofs[i] = vMkNmt(q.Start(), q.Start(), nil, nil, true)
+		}
+		emit("degenerate.empty-ranges-no-roots+recommit", "", p, coremerkle.HashFromByteSlices(nil))
+		p = vCloneCP(p)
+		for i, q := range p.SubtreeRootProofs {
+			p.SubtreeRootProofs[i] = vMkNmt(q.Start()+1, q.Start(), nil, nil, true)
+		}
+		emit("degenerate.inverted-ranges-no-roots+recommit", "", p, coremerkle.HashFromByteSlices(nil))
+	}
+	// (2) wrapped spans with the per-row components trimmed to a matching length k in {1, n-1, n}
+	// (k = n: untrimmed), the subtree roots either left alone or cut to the rows kept
+	n := len(h.SubtreeRootProofs)
+	total := 0
+	for _, q := range h.SubtreeRootProofs {
+		total += q.End() - q.Start()
+	}
+	width, werr := inclusion.SubTreeWidth(total, appconsts.SubtreeRootThreshold)
+	seenK := map[int]bool{}
+	for _, k := range []int{1, n - 1, n} {
+		if k < 1 || seenK[k] {
+			continue
+		}
+		seenK[k] = true
+		p := vCloneCP(h)
+		p.SubtreeRootProofs = p.SubtreeRootProofs[:k]
+		p.RowProof.RowRoots = p.RowProof.RowRoots[:k]
+		p.RowProof.Proofs = p.RowProof.Proofs[:k]
+		variants := []*blob.CommitmentProof{p}
+		if k < n && werr == nil {
+			keep := 0
+			for _, q := range p.SubtreeRootProofs {
+				if rs, err := nmt.ToLeafRanges(q.Start(), q.End(), width); err == nil {
+					keep += len(rs)
+				}
+			}
+			if keep <= len(p.SubtreeRoots) {
+				t := vCloneCP(p)
+				t.SubtreeRoots = t.SubtreeRoots[:keep]
+				variants = append(variants, t)
+			}
+		}
+		for vi, v := range variants {
+			for _, sp := range vWrapSpans(uint32(k))[1:3] {
+				q := vCloneCP(v)
+				q.RowProof.StartRow, q.RowProof.EndRow = sp[0], sp[1]
+				d := fmt.Sprintf("rows=%d/%d roots-cut=%v span=%d..%d", k, n, vi == 1, sp[0], sp[1])
+				emit("degenerate.wrapped-span-trimmed", d, q, commitment)
+				if k < n {
+					emit("degenerate.wrapped-span-trimmed+recommit", d, q, coremerkle.HashFromByteSlices(q.SubtreeRoots))
+				}
+			}
+		}
+	}
 	return out
 }
 
@@ -334,10 +440,10 @@ func (c *vC12) checkCommitmentProofs(b *vBlock, otherRoot []byte, tamper func(*v
 				break
 			}
 		}
-		for _, cs := range vCPCases(h, b.DataRoot, r.Commitment, donor, donorC, otherRoot) {
+		exec := func(cs vCPCase, fp [16]byte) {
 			changed := vFPCommitmentCase(b.FP, cs.Root, cs.Commitment, cs.P) != vFPCommitmentCase(b.FP, b.DataRoot, r.Commitment, h)
-			if !c.caseDone(vFPCommitmentCase(b.FP, cs.Root, cs.Commitment, cs.P), changed) {
-				continue // the very same input was already executed
+			if !c.caseDone(fp, changed) {
+				return // the very same input was already executed
 			}
 			var verr error
 			work := vCloneCP(cs.P)
@@ -345,22 +451,53 @@ func (c *vC12) checkCommitmentProofs(b *vBlock, otherRoot []byte, tamper func(*v
 				c.st.out("cproof:panic")
 				c.sink(vOpSig("CommitmentProof.Verify", vPanicKind(pn), cs.Op), fmt.Sprintf("Verify panicked (%s) on operator %s[%s] applied to the proof of %v; block %q",
 					pn, cs.Op, cs.Detail, r.Spec, b.Spec), rp(cs.Op))
-				continue
+				return
 			}
 			if verr != nil {
 				c.st.out("cproof:rejected")
-				c.sample("commitment-proof/rejected", map[string]any{"block": b.Spec.String(), "proof_of": r.Spec.String(), "operator": cs.Op, "at": cs.Detail, "verify": verr.Error()})
-				continue
+				kind := "commitment-proof/rejected"
+				if strings.HasPrefix(cs.Op, "degenerate.") {
+					kind = "commitment-proof/degenerate-rejected"
+				}
+				c.sample(kind, map[string]any{"block": b.Spec.String(), "proof_of": r.Spec.String(), "operator": cs.Op, "at": cs.Detail, "verify": verr.Error()})
+				return
 			}
 			if ok, why := vCommitmentClaimTrue(b, cs.P, cs.Root, cs.Commitment); !ok {
 				c.st.out("cproof:accepted-false-claim")
 				c.sink(vOpSig("CommitmentProof.Verify", "accepts-false-claim", cs.Op), fmt.Sprintf("Verify accepted operator %s[%s] applied to the proof of %v although %s; block %q layout %s",
 					cs.Op, cs.Detail, r.Spec, why, b.Spec, b.layout()), rp(cs.Op))
-				continue
+				return
 			}
 			c.st.out("cproof:accepted-true-claim")
 			c.st.hist("cproof_accepted_true_claim_ops", cs.Op)
 			c.sample("commitment-proof/accepted-true-claim", map[string]any{"block": b.Spec.String(), "proof_of": r.Spec.String(), "operator": cs.Op, "verify": "nil; ground truth: every listed subtree root is the inner node of the real row at the claimed leaves"})
+		}
+		for _, cs := range vCPCases(h, b.DataRoot, r.Commitment, donor, donorC, otherRoot) {
+			fp := vFPCommitmentCase(b.FP, cs.Root, cs.Commitment, cs.P)
+			exec(cs, fp)
+			if !strings.HasPrefix(cs.Op, "degenerate.") {
+				continue
+			}
+			// the same degenerate proof through its JSON (wire) form
+			c.st.hist("degenerate_cases", "commitment-proof")
+			doc, err := json.Marshal(cs.P)
+			if err != nil {
+				c.st.out("cproof:degenerate-json-marshal-error")
+				continue
+			}
+			var back blob.CommitmentProof
+			var derr error
+			if pn := vCatch(func() { derr = json.Unmarshal(doc, &back) }); pn != "" {
+				c.sink(vOpSig("CommitmentProof.UnmarshalJSON", vPanicKind(pn), cs.Op), fmt.Sprintf("decoding the JSON form of operator %s[%s] panicked: %s; block %q", cs.Op, cs.Detail, pn, b.Spec), rp(cs.Op))
+				continue
+			}
+			if derr != nil {
+				c.st.out("cproof:degenerate-json-decode-error")
+				continue
+			}
+			js := cs
+			js.P, js.Detail = &back, cs.Detail+" via-json"
+			exec(js, newVFPs("cp-json-form", fp[:]))
 		}
 	}
 }
